@@ -7,8 +7,10 @@ cd /repo || exit 2
 if ! git diff --quiet; then echo "repo working tree not clean"; exit 2; fi
 if ! git apply --whitespace=nowarn "$patch"; then echo "PATCH DOES NOT APPLY"; exit 2; fi
 trap 'git -C /repo checkout -- . ; git -C /repo clean -fdq -- src tests 2>/dev/null' EXIT
-tests=$(cargo test --offline 2>&1 | grep -E "^test result" | awk '{p+=$4; f+=$6} END {print p" passed "f" failed"}')
-echo "repo suite: $tests"
+if [ -z "${SKIP_SUITE:-}" ]; then
+  tests=$(cargo test --offline 2>&1 | grep -E "^test result" | awk '{p+=$4; f+=$6} END {print p" passed "f" failed"}')
+  echo "repo suite: $tests"
+fi
 cd /verif
 export VERIF_EVIDENCE_DIR=/verif/work/evidence-mut VERIF_REPLAY_DIR=/verif/work/replays-mut
 for p in "$@"; do
